@@ -1,9 +1,9 @@
 SPECIFICATION MCSpec
 CONSTANTS
-  MaxCorrupt = 2
+  MaxCorrupt = 0
   BlockLens = {1, 2}
   TableIds = {1, 2, 3, 4}
-  Reads = FALSE
+  Reads = TRUE
   MaxLevel = 4
 VIEW View
 INVARIANT ConstraintInv
